@@ -1,6 +1,10 @@
 package main
 
 import (
+	"github.com/mattn/anko/vm"
+	"github.com/mattn/anko/core"
+	"github.com/mattn/anko/env"
+	"reflect"
 	"fmt"
 	"math/rand"
 	"strings"
@@ -280,6 +284,31 @@ func streamScope(o *Out, r *rand.Rand, n int, thorough bool) {
 		{"res = make(chan int64, 8)\nfunc samev(a, rest...) {\nif a != rest[0] || a != rest[1] || len(rest) != 2 {\nreturn 1\n}\nreturn 0\n}\nfunc worker(k) {\nvar n = 0\nfor i = 0; i < 4000; i++ {\nn += samev(k, k, k)\n}\nres <- n\n}\nfor k = 0; k < 8; k++ {\ngo worker(k)\n}\ntotal = 0\nfor k = 0; k < 8; k++ {\ntotal += <-res\n}\nprobe(total)", vals.Encode(int64(0))},
 		{"res = make(chan int64, 8)\nfunc same2(a, b) {\nvar la = a\nvar lb = b\nif la != lb {\nreturn 1\n}\nreturn 0\n}\nfunc worker(k) {\nvar n = 0\nfor i = 0; i < 4000; i++ {\nn += same2(k, k)\n}\nres <- n\n}\nfor k = 0; k < 8; k++ {\ngo worker(k)\n}\ntotal = 0\nfor k = 0; k < 8; k++ {\ntotal += <-res\n}\nprobe(total)", vals.Encode(int64(0))},
 	}...)
+	// a scope's external lookup belongs to THAT scope: a name it provides is nearer than the bindings of the enclosing scopes, from
+	// the scope itself and from every block, function and closure below it (host arrangement: shared base scope, one child per session)
+	func() {
+		base := env.NewEnv()
+		_ = base.Define("who", "outer")
+		_ = base.Define("only_outer", "outer-only")
+		_ = base.DefineType("Kind", int64(0))
+		session := base.NewEnv()
+		session.SetExternalLookup(scopeLookup{vals: map[string]interface{}{"who": "external", "only_ext": "ext-only"}, types: map[string]reflect.Type{"Kind": reflect.TypeOf("")}})
+		for _, c := range []struct{ src, want string }{
+			{"who", "external"}, {"func f() { return who }\nf()", "external"}, {"x = nil\nif true {\nfor i in [1] {\nx = who\n}\n}\nx", "external"},
+			{"g = func() { return func() { return who } }\ng()()", "external"}, {"only_outer", "outer-only"}, {"only_ext", "ext-only"},
+			{"module m {\nfunc get() { return who }\n}\nm.get()", "external"}, {"typeOf(make(Kind))", "string"}, {"func mk() { return typeOf(make(Kind)) }\nmk()", "string"},
+		} {
+			e := session.NewEnv()
+			core.Import(e)
+			v, err := vm.Execute(e, nil, c.src)
+			o.Sum.Evaluations++
+			o.Sum.Hist["external-lookup-on-inner-scope"]++
+			if err != nil || fmt.Sprint(v) != c.want {
+				o.Fail(Failure{Oracle: "scope-binding-visibility", Key: "scope-external-lookup:" + firstLine(c.src), Input: "base scope: who = \"outer\", type Kind = int64; session scope (child) with an external lookup providing who = \"external\", type Kind = string; script in a child of the session scope:\n" + c.src,
+					Detail: fmt.Sprintf("got %v (err %v), expected %s", v, err, c.want)})
+			}
+		}
+	}()
 	for _, c := range closureCases {
 		stmt, err := parser.ParseSrc(c.src)
 		if err != nil {
@@ -322,4 +351,24 @@ func parseVars(line string) map[string]string {
 		}
 	}
 	return out
+}
+
+// scopeLookup is an external lookup backed by two tables.
+type scopeLookup struct {
+	vals  map[string]interface{}
+	types map[string]reflect.Type
+}
+
+func (l scopeLookup) Get(name string) (reflect.Value, error) {
+	if v, ok := l.vals[name]; ok {
+		return reflect.ValueOf(v), nil
+	}
+	return reflect.Value{}, fmt.Errorf("not found")
+}
+
+func (l scopeLookup) Type(name string) (reflect.Type, error) {
+	if t, ok := l.types[name]; ok {
+		return t, nil
+	}
+	return nil, fmt.Errorf("not found")
 }
